@@ -113,6 +113,19 @@ impl<E: FieldElement, H: ElementHasher<BaseField = E::BaseField>> VerifierChanne
             .parse(main_trace_width, aux_trace_width, constraint_frame_width)
             .map_err(|err| VerifierError::ProofDeserializationError(err.to_string()))?;
 
+        // the Lagrange kernel frame must be present exactly when the computation has a Lagrange
+        // kernel column, and must consist of log(trace_length) + 1 evaluations
+        let expected_lagrange_frame_size = air
+            .context()
+            .has_lagrange_kernel_aux_column()
+            .then(|| air.context().trace_len().ilog2() as usize + 1);
+        let lagrange_frame_size = ood_trace_frame.lagrange_kernel_frame().map(|f| f.num_rows());
+        if lagrange_frame_size != expected_lagrange_frame_size {
+            return Err(VerifierError::ProofDeserializationError(format!(
+                "expected Lagrange kernel frame of size {expected_lagrange_frame_size:?}, but was {lagrange_frame_size:?}"
+            )));
+        }
+
         Ok(VerifierChannel {
             // trace queries
             trace_roots,
